@@ -175,7 +175,17 @@ func genPositionsWalk(r *rand.Rand, n int) []Step {
 func genScenario(r *rand.Rand, i int) []Step {
 	blk := func(dt int) Step { return Step{"a": "block", "dt": float64(dt)} }
 	u, v := pick(r, "u2", "u3"), "u1"
-	switch i % 24 {
+	switch i % 25 {
+	case 24: // a SECOND oracle pool of the same pair is created and enabled for leverage / perpetual trading; a trader who holds a
+		// position in the first pool opens the same kind of position in the second one, then both are looked at and closed
+		side := pick(r, "long", "short")
+		return []Step{{"a": "createPool", "kind": "oracle", "fee": "0.001", "d1": "uatom", "d2": "uusdc", "a1": "100000000000", "a2": "500000000000"}, blk(5),
+			{"a": "enableLev", "p": float64(3)}, blk(5),
+			{"a": "perpOpen", "u": u, "p": float64(1), "side": side, "coll": "uusdc", "sz": pick(r, "s1", "1000000"), "lev": "2"}, blk(5),
+			{"a": "perpOpen", "u": u, "p": float64(3), "side": side, "coll": "uusdc", "sz": pick(r, "s1", "1000000"), "lev": pick(r, "2", "3")}, blk(5),
+			{"a": "perpOpen", "u": v, "p": float64(3), "side": "long", "coll": "uusdc", "sz": "s1", "lev": "2"}, blk(60),
+			{"a": "perpClosePositions", "u": "bot", "exact": true, "liq": []any{[]any{u, float64(1)}, []any{u, float64(2)}, []any{v, float64(3)}}, "sl": []any{}, "tp": []any{}}, blk(5),
+			{"a": "perpClose", "u": u, "id": float64(1), "frac": "all"}, {"a": "perpClose", "u": u, "id": float64(2), "frac": "all"}, blk(5)}
 	case 23: // governance raises a safety factor: a highly leveraged position becomes liquidatable while a modest one stays healthy; the
 		// bot names the liquidatable position TWICE in one message (in both lists, or twice in one list), then the other one too
 		if r.Intn(2) == 0 {
